@@ -119,6 +119,13 @@ package model
 //@ func (Name).Filepath
 //@   requires fqname(n.Host, n.Namespace, n.Model, n.Tag)
 //@   ensures result == fpjoin4(n.Host, n.Namespace, n.Model, n.Tag)
+// (audit) Filepath's own refusal stays in place: the join is reached only after IsFullyQualified was
+// called on the receiver and answered true. (Callers outside the verified set get no obligation from
+// the `requires`; for them the panic is the only guard. If the test is deleted or replaced by
+// another one these clauses no longer bind / no longer hold.)
+//@   ghost-at entry : ghost_fq := 0
+//@   ghost-at after call IsFullyQualified #1 : ghost_fq := ite(result, 1, 0)
+//@   assert-at call Join #1 : ghost_fq == 1
 
 //@ func ParseNameFromFilepath
 //@   ensures (n.Host == "" && n.Namespace == "" && n.Model == "" && n.Tag == "") || fqname(n.Host, n.Namespace, n.Model, n.Tag)
@@ -184,3 +191,55 @@ package model
 // String prints host/namespace/model:tag, leaving out empty host, namespace and tag.
 //@ func (Name).String
 //@   ensures result == namestr(n.Host, n.Namespace, n.Model, n.Tag)
+
+// ===== C13 strengthening (audit): the parser, the defaults and the short printer are pinned down ====
+//
+// ParseNameBare is the grammar  [[host "/"] namespace "/"] model [":" tag]  read from the right:
+// the tag is what follows the last ':' provided that ':' lies after the last '/'; the model is what
+// follows the last '/' of the rest; the namespace what follows the last '/' of that rest; the host
+// is what remains, minus a "scheme://" prefix. A part "promised" by its separator but empty is
+// the (invalid) marker "!MISSING!". Any change of the parser that moves a boundary, swaps two
+// parts, normalises a part (case, trimming) or drops the missing-part marker changes one of these
+// functions of s, and with it the print/parse round trip the property demands.
+//@ spec func orm(x string) string = ite(x != "", x, "!MISSING!")
+//@ spec func pnbhastag(s string) bool = slastindex(s, ":") > slastindex(s, "/")
+//@ spec func pnbtag(s string) string = ite(pnbhastag(s), orm(s[slastindex(s, ":")+1:len(s)]), "")
+//@ spec func pnbr1(s string) string = ite(pnbhastag(s), orm(s[0:slastindex(s, ":")]), s)
+//@ spec func pnbcutafter(x string) string = orm(x[slastindex(x, "/")+1:len(x)])
+//@ spec func pnbcutbefore(x string) string = orm(x[0:slastindex(x, "/")])
+//@ spec func pnbmodel(s string) string = ite(slastindex(pnbr1(s), "/") >= 0, pnbcutafter(pnbr1(s)), pnbr1(s))
+//@ spec func pnbr2(s string) string = pnbcutbefore(pnbr1(s))
+//@ spec func pnbns(s string) string = ite(slastindex(pnbr1(s), "/") < 0, "", ite(slastindex(pnbr2(s), "/") >= 0, pnbcutafter(pnbr2(s)), pnbr2(s)))
+//@ spec func pnbr3(s string) string = pnbcutbefore(pnbr2(s))
+//@ spec func unscheme(x string) string = ite(scontains(x, "://"), x[sindex(x, "://")+3:len(x)], x)
+//@ spec func pnbhost(s string) string = ite(slastindex(pnbr1(s), "/") >= 0 && slastindex(pnbr2(s), "/") >= 0, unscheme(pnbr3(s)), "")
+
+//@ func ParseNameBare
+//@   pure reads none
+//@   ensures result.Tag == pnbtag(s)
+//@   ensures result.Model == pnbmodel(s)
+//@   ensures result.Namespace == pnbns(s)
+//@   ensures result.Host == pnbhost(s)
+
+// The defaults that complete a bare name. (They are what makes "m", "library/m" and
+// "registry.ollama.ai/library/m:latest" one model: a changed default silently re-addresses
+// every short name.)
+//@ func DefaultName
+//@   pure reads none
+//@   ensures result.Host == "registry.ollama.ai" && result.Namespace == "library" && result.Model == "" && result.Tag == "latest"
+//@   ensures validpart(0, result.Host) && validpart(1, result.Namespace) && validpart(3, result.Tag)
+
+// ParseName = the bare parse completed by the defaults: no part of the bare parse is replaced
+// unless it is empty, the model never.
+//@ func ParseName
+//@   pure reads none
+//@   ensures result.Host == ite(pnbhost(s) != "", pnbhost(s), "registry.ollama.ai")
+//@   ensures result.Namespace == ite(pnbns(s) != "", pnbns(s), "library")
+//@   ensures result.Model == pnbmodel(s)
+//@   ensures result.Tag == ite(pnbtag(s) != "", pnbtag(s), "latest")
+
+// DisplayShortest prints [host "/" namespace "/" | namespace "/"] model ":" tag; host and namespace
+// are left out only when they are (case-insensitively) the defaults that ParseName puts back.
+//@ spec func dsprefix(h string, ns string) string = ite(!sfoldeq(h, "registry.ollama.ai"), h + sbyte(47) + ns + sbyte(47), ite(!sfoldeq(ns, "library"), ns + sbyte(47), ""))
+//@ func (Name).DisplayShortest
+//@   ensures result == dsprefix(n.Host, n.Namespace) + n.Model + ":" + n.Tag
